@@ -297,9 +297,19 @@ def emit_assumed(u, un2, file, nm):
         k += 1
     it = find_item(file, nm)
     b = src_bytes(file)
-    info = {"kind": "assumed", "fn": nm}
+    emit_external_stub(u, it, file, nm, ret, spec_lines, {"kind": "assumed", "fn": nm})
+    u.stubs.append({"name": nm, "file": file, "line_start": it["line_start"], "line_end": it["line_end"],
+                    "signature": b[it["fn_token"]:it["sig_end"]].decode(), "sha256": sha(b[it["start"]:it["end"]]),
+                    "proved_in": un2})
+
+
+def emit_external_stub(u, it, file, nm, ret, spec_lines, info):
+    """the function's signature with the given contract and no verified body (external_body)"""
+    b = src_bytes(file)
     if it["impl_header"] is not None:
         u.emit(it["impl_header"].rstrip() + " {", info)
+        if it.get("impl_extra", "").strip():
+            u.emit(it["impl_extra"].rstrip("\n"), info)
     u.emit("#[verifier::external_body]", info)
     sig_start = it["vis"]["end"] if it.get("vis") else it["start"]
     if it["ret_start"] is not None:
@@ -311,7 +321,7 @@ def emit_assumed(u, un2, file, nm):
     for l in spec_lines:
         if re.match(r"\s*decreases\b", l):
             continue
-        u.emit(l, info)
+        u.emit(LABEL_RE.sub("", l).rstrip(), info)
     m_it = re.match(r"\s*impl\s+Iterator\s*<\s*Item\s*=\s*(.+)>\s*$", it["ret_ty"] or "")
     if m_it:
         # an opaque return type needs some concrete iterator type behind it (the body is never verified nor run)
@@ -320,9 +330,6 @@ def emit_assumed(u, un2, file, nm):
         u.emit("{ unimplemented!() }", info)
     if it["impl_header"] is not None:
         u.emit("}", info)
-    u.stubs.append({"name": nm, "file": file, "line_start": it["line_start"], "line_end": it["line_end"],
-                    "signature": b[it["fn_token"]:it["sig_end"]].decode(), "sha256": sha(b[it["start"]:it["end"]]),
-                    "proved_in": un2})
 
 
 def norm_sig(s):
@@ -396,6 +403,7 @@ def emit_fn(u, file, nm, block):
     etas = []
     loops_spec = {}
     uses = []
+    vac_rename = False
     nshards = 0
     mode = None
     cur = None
@@ -506,8 +514,11 @@ def emit_fn(u, file, nm, block):
                     kept.append(l)
                 elif sect == "dec":
                     tail.append(l)
+            # callers inside this unit keep seeing the real contract: stub under the real name, verified copy renamed
+            emit_external_stub(u, it, file, nm, ret, spec_lines, {"kind": "assumed", "fn": nm})
             spec_lines = kept + ["    ensures false, // #vacuity"] + tail
             u.vacuity_targets.append(nm)
+            vac_rename = True
         else:
             attrs = attrs + ["#[verifier::external_body]"]
             closures = {}
@@ -548,6 +559,11 @@ def emit_fn(u, file, nm, block):
         u.edits.append("%s::%s: return value named `%s`" % (file, nm, ret))
     else:
         sig_txt = b[sig_start:it["body_open"]].decode().rstrip()
+    if vac_rename:
+        last = nm.split("::")[-1]
+        sig_txt, nsub = re.subn(r"\bfn\s+%s\b" % re.escape(last), "fn %s__vac" % last, sig_txt, count=1)
+        if nsub != 1:
+            raise Undecided("internal: cannot rename %s for the vacuity twin" % nm)
     u.emit(sig_txt, dict(info_base, part="sig", src=(file, it["line_start"])))
     # ---- spec clauses
     for l in spec_lines:
